@@ -165,6 +165,11 @@ def mk_symbolic(ip: Interp, sortname: str, hint: str):
         t = p.fresh(hint, z3.IntSort())
         p.vars[hint] = ('opaque', t)
         return Opaque(sortname.split(':', 1)[1], t)
+    if sortname.startswith(('seq[func:', 'seq[opaque:')):
+        from .interp import OpaqueSeq
+        t = p.fresh(hint, z3.SeqSort(z3.IntSort()))
+        p.vars[hint] = ('term', t)
+        return OpaqueSeq(sortname[len('seq['):-1].replace('opaque:', ''), t)
     if sortname.startswith('func:'):
         t = p.fresh(hint, z3.IntSort())
         p.vars[hint] = ('func', t)
